@@ -56,6 +56,7 @@ type World struct {
 
 	transformers map[int]*didtransformer.Transformer // C18: one per option set per run
 	retainedRes  []retainedResolution
+	svcProps     map[string]interface{} // C08: property map shared by services of client calls
 
 	Proto    protocol.Protocol
 	Parser   *operationparser.Parser // batch-side parser (observers, chain filter)
